@@ -11,24 +11,24 @@ Proof. unfold script_lags. pose proof (min0_le_0 (offsets (mentions p))). lia. Q
 Lemma script_leads_nonneg p : (0 <= script_leads p)%Z.
 Proof. apply max0_ge_0. Qed.
 
-Theorem default_lengths p syms c : wf_program p = true -> fn_guard p = true ->
+Theorem default_lengths p syms c : wf_program p = true ->
   program_symbols p = Ret syms -> class_of syms default_opts = Ret c ->
   c_lags c = script_lags p /\ c_leads c = script_leads p.
 Proof.
-  intros W G A C. destruct (lags_leads p W G syms default_opts c A C) as (_ & L1 & _ & L2).
+  intros W A C. destruct (lags_leads p W syms default_opts c A C) as (_ & L1 & _ & L2).
   destruct (L1 eq_refl) as (m1 & E1 & ->). destruct (L2 eq_refl) as (m2 & E2 & ->).
   cbn in E1, E2. inversion E1; inversion E2; subst.
   pose proof (script_lags_nonneg p). pose proof (script_leads_nonneg p). split; lia.
 Qed.
 
-Theorem default_range_of_program p syms c n l : wf_program p = true -> fn_guard p = true ->
+Theorem default_range_of_program p syms c n l : wf_program p = true ->
   program_symbols p = Ret syms -> class_of syms default_opts = Ret c ->
   (script_lags p + script_leads p + 1 <= Z.of_nat n)%Z ->
   default_range n (c_lags c) (c_leads c) = Ret l ->
   NoDup l /\
   forall t, In t l <-> (0 <= t < Z.of_nat n /\ forall k, In k (offsets (mentions p)) -> 0 <= t + k < Z.of_nat n)%Z.
 Proof.
-  intros W G A C H E. destruct (default_lengths p syms c W G A C) as [E1 E2]. rewrite E1, E2 in E. split.
+  intros W A C H E. destruct (default_lengths p syms c W A C) as [E1 E2]. rewrite E1, E2 in E. split.
   - apply (default_range_periods n _ _ l (script_lags_nonneg p) (script_leads_nonneg p) H E).
   - apply (default_range_feasible p n l H E).
 Qed.
@@ -45,22 +45,22 @@ Proof.
 Qed.
 
 (* what the options must NOT change: the four name lists (and NAMES) are the same whatever lags / leads / minima are given *)
-Theorem lists_independent_of_options p syms o1 o2 c1 c2 : wf_program p = true -> fn_guard p = true ->
+Theorem lists_independent_of_options p syms o1 o2 c1 c2 : wf_program p = true ->
   program_symbols p = Ret syms -> class_of syms o1 = Ret c1 -> class_of syms o2 = Ret c2 ->
   c_endogenous c1 = c_endogenous c2 /\ c_exogenous c1 = c_exogenous c2 /\ c_parameters c1 = c_parameters c2 /\
   c_errors c1 = c_errors c2 /\ c_names c1 = c_names c2.
 Proof.
-  intros W G A C1 C2. destruct (name_lists p W G syms o1 c1 A C1) as (E1 & E2 & E3 & E4).
-  destruct (name_lists p W G syms o2 c2 A C2) as (F1 & F2 & F3 & F4).
+  intros W A C1 C2. destruct (name_lists p W syms o1 c1 A C1) as (E1 & E2 & E3 & E4).
+  destruct (name_lists p W syms o2 c2 A C2) as (F1 & F2 & F3 & F4).
   unfold c_names. rewrite E1, E2, E3, E4, F1, F2, F3, F4. repeat split; reflexivity.
 Qed.
 (* … and lags options do not touch LEADS, leads options do not touch LAGS *)
-Theorem lags_options_do_not_touch_leads p syms o c lg mlg : wf_program p = true -> fn_guard p = true ->
+Theorem lags_options_do_not_touch_leads p syms o c lg mlg : wf_program p = true ->
   program_symbols p = Ret syms -> class_of syms o = Ret c ->
   forall c', class_of syms (mkOpts lg (o_leads o) mlg (o_min_leads o)) = Ret c' -> c_leads c' = c_leads c.
 Proof.
-  intros W G A C c' C'. destruct (lags_leads p W G syms o c A C) as (_ & _ & L3 & L4).
-  destruct (lags_leads p W G syms _ c' A C') as (_ & _ & M3 & M4). cbn [o_leads o_min_leads] in M3, M4.
+  intros W A C c' C'. destruct (lags_leads p W syms o c A C) as (_ & _ & L3 & L4).
+  destruct (lags_leads p W syms _ c' A C') as (_ & _ & M3 & M4). cbn [o_leads o_min_leads] in M3, M4.
   destruct (o_leads o) as [z|] eqn:E.
   - rewrite (L3 z eq_refl), (M3 z eq_refl). reflexivity.
   - destruct (L4 eq_refl) as (m & Em & ->). destruct (M4 eq_refl) as (m' & Em' & ->). congruence.
@@ -68,22 +68,38 @@ Qed.
 
 (* which exception: a name in two classes, with every statement well formed and no double definition -> SymbolError;
    a double definition with no name in two classes -> ParserError *)
-Theorem conflict_gives_SymbolError p a b : wf_program p = true -> fn_guard p = true ->
+Theorem conflict_gives_SymbolError p a b : wf_program p = true ->
   existsb stmt_rejected p = false ->
   (forall a' b', In a' (amentions p) -> In b' (amentions p) -> aname a' = aname b' -> ~ two_texts a' b') ->
   In a (amentions p) -> In b (amentions p) -> aname a = aname b -> clash (atype a) (atype b) ->
   program_symbols p = Raise SymbolError.
 Proof.
-  intros W G NR NT Ia Ib N C. destruct (conflict_rejected p W G a b Ia Ib N C) as (x & A & _). rewrite A. f_equal.
-  destruct (rejection_classes p W G x A) as [(_ & R)|[(E & _)|(_ & a' & b' & Ia' & Ib' & N' & T)]]; [congruence|exact E|].
+  intros W NR NT Ia Ib N C. destruct (conflict_rejected p W a b Ia Ib N C) as (x & A & _). rewrite A. f_equal.
+  destruct (rejection_classes p W x A) as [(_ & R)|[(E & _)|(_ & a' & b' & Ia' & Ib' & N' & T)]]; [congruence|exact E|].
   exfalso. apply (NT a' b' Ia' Ib' N' T).
 Qed.
-Theorem double_definition_gives_ParserError p a b : wf_program p = true -> fn_guard p = true ->
+Theorem double_definition_gives_ParserError p a b : wf_program p = true ->
   (forall a' b', In a' (amentions p) -> In b' (amentions p) -> aname a' = aname b' -> ~ clash (atype a') (atype b')) ->
   In a (amentions p) -> In b (amentions p) -> aname a = aname b -> two_texts a b ->
   program_symbols p = Raise ParserError.
 Proof.
-  intros W G NC Ia Ib N T. destruct (double_definition_rejected p W G a b Ia Ib N T) as (x & A & _). rewrite A. f_equal.
-  destruct (rejection_classes p W G x A) as [(E & _)|[(_ & a' & b' & Ia' & Ib' & N' & C)|(E & _)]]; [exact E| |exact E].
+  intros W NC Ia Ib N T. destruct (double_definition_rejected p W a b Ia Ib N T) as (x & A & _). rewrite A. f_equal.
+  destruct (rejection_classes p W x A) as [(E & _)|[(_ & a' & b' & Ia' & Ib' & N' & C)|(E & _)]]; [exact E| |exact E].
   exfalso. apply (NC a' b' Ia' Ib' N' C).
+Qed.
+
+(* in an accepted program a name that is called as a function is used as nothing else (b45daa1): it is in none of the classes,
+   and every classified name is never called *)
+Theorem function_names_are_not_variables p syms x : wf_program p = true -> program_symbols p = Ret syms ->
+  mentioned_as TFunction x (mentions p) = true ->
+  is_endogenous p x = false /\ is_exogenous p x = false /\ is_parameter p x = false /\ is_error p x = false.
+Proof.
+  intros W A F. destruct (accepted_table p W syms A) as (d & _ & HD & _).
+  rewrite <- amentions_terms in F. apply mentioned_as_iff in F as (a & Ia & Na & Ta).
+  assert (X : forall ty, ty <> TFunction -> mentioned_as ty x (mentions p) = false).
+  { intros ty Nty. destruct (mentioned_as ty x (mentions p)) eqn:M; [|reflexivity]. exfalso.
+    rewrite <- amentions_terms in M. apply mentioned_as_iff in M as (b & Ib & Nb & Tb).
+    apply (accepted_no_clash p d HD a b Ia Ib); [congruence|]. unfold clash. rewrite Ta, Tb. split; [congruence|reflexivity]. }
+  unfold is_endogenous, is_exogenous, is_parameter, is_error.
+  rewrite (X TEndogenous), (X TExogenous), (X TParameter), (X TError) by discriminate. repeat split; reflexivity.
 Qed.
